@@ -165,6 +165,13 @@ def run_c12(run, thorough=False):
     for (c, st), d in zip(todo, decs):
         verdict = oracle_asm.judge_accepted(st["mn"], st, d)
         if verdict is None:
+            # grammar half: an unknown or inapplicable register must be rejected, not read as some other register
+            bad = bad_register(st["mn"], st["opnd"] or "")
+            if bad:
+                same = fam_asm_key({"lines": c["lines"], "files": None}) not in disagree_keys
+                run.dist["c12.any.violation.register"] += 1
+                run.violate("C12: an unknown or inapplicable register is accepted", {"lines": c["lines"], "statement": "%s %s" % (st["mn"], st["opnd"])},
+                            "diag", {"register": bad, "bytes": st["bytes"]}, known_id="A10" if same else None)
             continue
         rid = region_of_text(st["opnd"] or "")
         same = fam_asm_key({"lines": c["lines"], "files": None}) not in disagree_keys
@@ -172,6 +179,29 @@ def run_c12(run, thorough=False):
         run.violate("C12: an accepted statement yields a malformed or truncated instruction ({})".format(verdict[0]),
                     {"lines": c["lines"], "statement": "%s %s" % (st["mn"], st["opnd"])}, "one complete instruction of that mnemonic, size = bytes",
                     {"class": verdict[0], "detail": verdict[1]}, known_id=rid if (rid and same) else None)
+
+
+IDX_REG_RE = re.compile(r"^(-{0,2}[XYUS]|[XYUS]\+{1,2}|PCR)$")
+
+
+def bad_register(mn, opnd):
+    """the register part of an accepted indexed operand / register list that the MC6809 does not have in that place"""
+    if mn in ("PSHS", "PULS", "PSHU", "PULU"):
+        own = "S" if mn in ("PSHS", "PULS") else "U"
+        for r in opnd.split(","):
+            if r == own or r not in ("A", "B", "D", "X", "Y", "U", "S", "CC", "DP", "PC"):
+                return r
+        return None
+    if mn in ("TFR", "EXG"):
+        return None
+    inner = opnd[1:-1] if opnd.startswith("[") and opnd.endswith("]") else opnd
+    if inner.count(",") == 1:
+        left, right = inner.split(",")
+        if not IDX_REG_RE.match(right):
+            return right
+        if right == "PCR" and left in ("", "A", "B", "D"):
+            return right
+    return None
 
 
 # ------------------------------------------------------------------ helpers on implementation results
@@ -398,8 +428,8 @@ def region_c04(meta, val):
         return "C4"                      # EQU of an expression is not evaluated
     if pos == "pcr":
         return "A9"
-    if pos == "mem" and val is not None and val < 0:
-        return "A13"                     # a negative expression result loses its sign as a memory operand
+    if (pos == "mem" and val is not None and val < 0) or meta.get("a", 0) < 0:
+        return "A13"                     # negative EQU constants / negative expression results lose their sign
     return None
 
 
@@ -416,6 +446,14 @@ def run_c04(run, thorough=False):
                 body = [" %s %s" % (mn, t), " NOP", "L NOP"] if late else ["L NOP", " NOP", " %s %s" % (mn, t)]
                 cases.append({"lines": gen_asm.L(*([" ORG " + org] + body)), "tag": "label-expr",
                               "meta": {"mn": mn, "pos": pos, "k": k, "stmt": 1 if late else 3, "label": True}})
+    # negative EQU constants in expressions (signed arithmetic)
+    for a in (-1, -5, -128, -200, -32768):
+        for b in (0, 1, 3, 0x100):
+            for op in "+-*":
+                e = "SA" + op + str(b)
+                for mn, pos, t in (("LDX", "imm", "#" + e), ("LDA", "mem", e), ("FDB", "fdb", e), ("LDD", "extind", "[" + e + "]")):
+                    cases.append({"lines": gen_asm.L("SA EQU %d" % a, " %s %s" % (mn, t)), "tag": "expr-signed",
+                                  "meta": {"mn": mn, "pos": pos, "a": a, "b": b, "op": op, "stmt": 1}})
     # a label on the very first statement of the source (statement index 0, no ORG in front)
     for mn, t, pos, k in (("LDX", "#L+3", "imm", 3), ("LDX", "L+2", "mem", 2), ("JMP", "L+$300", "mem", 0x300), ("LDD", "#L+$1234", "imm", 0x1234),
                           ("LDX", "#2+L", "imm", 2)):
